@@ -294,6 +294,7 @@ var c18Scenarios = [][]string{
 	{"type P struct {\n\tX, Y int\n}", "p := &P{1, 2}", "func (p *P) Sum() int {\n\treturn p.X + p.Y\n}", "println(p.Sum())", "func (p *P) Scale(k int) {\n\tp.X *= k\n\tp.Y *= k\n}", "p.Scale(3)", "println(p.Sum(), p.X)", "p.Y"},
 	{"var hits int = 0", "func hit() int {\n\thits += 2\n\treturn hits\n}", "switch hit() {\ncase 2:\n\tprintln(\"two\")\n}", "bonus := 10", "func score() int {\n\treturn hits*100 + bonus\n}", "println(score())", "var late int", "late = score()", "late"},
 	{"xs := []int{3, 1, 2}", "import \"golang.org/x/exp/slices\"", "slices.SortFunc(xs, func(a, b int) bool {\n\treturn a < b\n})", "println(xs[0], xs[1], xs[2])", "slices.SortFunc(xs, func(a, b int) bool {\n\treturn a > b\n})", "println(xs[0], xs[1], xs[2])", "len(xs)"},
+	{"import \"fmt\"", "func println(s string) {\n\tfmt.Print(\"<\" + s + \">\")\n}", "println(\"hi\")", "func emit() {\n\tprintln(\"in\")\n}", "emit()", "func print(s string) int {\n\tfmt.Print(\"[\" + s + \"]\")\n\treturn len(s)\n}", "n := print(\"abc\")", "println(\"bye\")", "n"},
 	{"func area(w, h int) int {\n\treturn w * h\n}", "println(area(2, 3))", "func area(w, h, d int) int {\n\treturn w * h * d\n}", "println(area(2, 3, 4))", "func total(xs ...int) int {\n\treturn len(xs)\n}", "println(total(), total(1, 2))", "area(1, 1, 1)"},
 }
 
@@ -376,7 +377,21 @@ func checkC18(c *Ctx) {
 		}
 		whole := c18Whole(items, len(items))
 		if whole.Error != "" {
-			// the generator produced something goatlang rejects as a whole: not a chunking question
+			// fed one statement per call instead: when that succeeds, the two ways of feeding differ
+			var out bytes.Buffer
+			vm := goat.New(goat.WithStdout(&out))
+			imports := map[string]string{}
+			var ierr error
+			for k := 0; k < len(items) && ierr == nil; k++ {
+				goat.VerifSetBudget(400000)
+				_, ierr = vm.Eval(fstest.MapFS{}, "repl.go", c18Source(items, k, k+1), goat.WithEvalImports(imports))
+				goat.VerifSetBudget(-1)
+			}
+			if ierr == nil && !strings.Contains(whole.Error, goat.VerifBudgetMsg) {
+				c.violate(hashKey(id+"|whole-fails"), fmt.Sprintf("program %s evaluated as a whole fails (%s) but succeeds when fed one statement per call (output %q)", id, firstLine(whole.Error), clip(out.String(), 200)),
+					map[string]any{"statements": c18Texts(items), "whole_program_error": whole.Error, "incremental_output": out.String()})
+			}
+			// otherwise the generator produced something goatlang rejects either way: not a chunking question
 			failing = append(failing, id+": "+whole.Error)
 			continue
 		}
